@@ -675,11 +675,13 @@ def c12_instances(tier):
 
 def c18_instances(tier):
     I = []
-    for v in ((0, 1) if tier == "quick" else (0, 1, 2, 3)):
+    for v in ((4, 1) if tier == "quick" else (0, 1, 2, 3, 4)):
         I.append(simple_inst("release_instance", "c18_release_v%d" % v, str(v), "drop glue of Array graphs (REAL Rc::drop, no stub)",
                              "after all results are dropped each leaf is the sole owner of its buffer, no alias / pending value remains; "
                              "gradients are independent arrays; Vec::from(leaf) succeeds",
-                             "program c=a*b; d=c+a; e=...; passes per variant %d; [2] arrays" % v, unwind=12, timeout=2400, mem_gb=24))
+                             "program c=a*b; d=c+a; e=... (variant 4: e=relu(a*b)); passes per variant %d; [2] arrays" % v, unwind=12, timeout=2400, mem_gb=24))
+    # the "no pending value / count remains" half on tiny graph classes (drop stub; Clean(G) after the pass for every value incl. zero adjoints)
+    I += [graph_inst("mul_add", GRAPHS["mul_add"], mode=0), graph_inst("one_mul", GRAPHS["one_mul"], mode=2, dims=(2,))]
     return I
 
 
@@ -818,7 +820,7 @@ PROPS.update({
                           "per formula; model forward = composition and backward returns the sum of the cost array.",
             "level_note": _GEN_NOTE + "; sigmoid/ln/powf via the deterministic models (A4); softmax activation covered by C07/C02 only",
             "explanation": "Bounded contract instances for layers, costs and model."},
-    "C18": {"level": "model_checking", "audits": ["audit_handles"], "kani_groups": ["h_handles.rs"], "instances": c18_instances,
+    "C18": {"level": "model_checking", "audits": ["audit_handles"], "kani_groups": ["h_graph.rs", "h_handles.rs"], "instances": c18_instances,
             "technique": "bounded Kani instances with the REAL Rc drop glue: reference counts of every leaf cell after all results are dropped",
             "level_text": "Bounded: programs with 1-3 passes (incl. none, repeated, interior) on [2] arrays; after the results go out of scope every "
                           "Rc of each leaf (values, children, counter, pending, gradient) has strong count 1, no pending value remains, stored "
